@@ -327,4 +327,10 @@ theorem c02_directory_open_is_source_open (f : Bytes) :
         (fun w pos count => readBlock f pos (w * count)) :=
   gen_directoryOpen f
 
+/-- **Value-store keys are sized as the source sizes them** (`key_size` of both store kinds, translated on every
+    run): by the data size for a plain store, by the number of values for an indexed one. -/
+theorem c02_key_size_is_source_key_size (s : VStore) :
+    s.keySize = if s.indexed then Generated.indexedStoreKeySize s.values.length else Generated.plainStoreKeySize s.dataSize :=
+  gen_keySize s
+
 end Jubako
